@@ -46,6 +46,9 @@ def main():
         assert r.returncode == 0, r.stdout
         demo = os.path.join(d, 'demo_seed.py')
         shutil.copy(a.demo, demo)
+        common = os.path.join(os.path.dirname(os.path.abspath(a.demo)), 'demo_common.py')   # helper module some demos share
+        if os.path.exists(common):
+            shutil.copy(common, os.path.join(d, 'demo_common.py'))
         env = dict(os.environ, PYTHONPATH=d, PYTHONDONTWRITEBYTECODE='1')
         r0 = sh(['/venv/bin/python', demo], cwd=d, env=env)
         meta['demo_unpatched_exit'] = r0.returncode
@@ -86,6 +89,9 @@ def main():
         for src, name in ((a.patch, 'patch.diff'), (a.demo, 'demo.py')):
             if os.path.abspath(src) != os.path.join(dest, name):
                 shutil.copy(src, os.path.join(dest, name))
+        common = os.path.join(os.path.dirname(os.path.abspath(a.demo)), 'demo_common.py')
+        if os.path.exists(common) and os.path.abspath(common) != os.path.join(dest, 'demo_common.py'):
+            shutil.copy(common, os.path.join(dest, 'demo_common.py'))
         old = {}
         mp = os.path.join(dest, 'meta.json')
         if os.path.exists(mp):
